@@ -20,7 +20,7 @@ for sid in sorted(os.listdir(SEEDED)):
         first = first.split("signature=")[-1].split(" hits=")[0] if "signature=" in first else ""
         break
     needs = " ".join(m.get("needs", "").split())
-    site = needs.split(".")[0][:110]
+    site = needs[:130]
     rows.append((sid, site, ", ".join(caught) or "—", ", ".join(missed) or "—", first[:70]))
 print("| seeded change | what was changed (from its note) | caught by (quick tier) | missed by | first signature |")
 print("|---|---|---|---|---|")
